@@ -215,6 +215,7 @@ MUTANTS = [
     m('C06', 'mwem_rounds_from_records', (MWEM, "    if rounds is None:\n        rounds = len(data.domain)", "    if rounds is None:\n        rounds = len(data.domain) + (1 if data.records > 100 else 0)")),
     m('C06', 'synth_rows_from_true_count', (MST, "    synth = est.synthetic_data()", "    synth = est.synthetic_data(rows=data.records)")),
     m('C18', 'revert_F14_factorgraph_duplicate_cliques', (FG, "        self.cliques = list(dict.fromkeys(cliques)) # a repeated clique is still one factor", "        self.cliques = cliques")),
+    m('C18', 'revert_F15_restart_cap', (LI, "                if t <= 50 and restarts < 100: # an uptick that the step size does not cause must not restart for ever", "                if t <= 50:")),
     m('C08', 'revert_F16_md_early_stop', (INF, "            if stalled >= 20: break\n", "")),
 ]
 
